@@ -53,6 +53,8 @@ inductive Ver
   | auth        -- AuthenticationError
   | fail        -- any other exception (HomeKitException or not), raised at once
   | hang        -- no answer: the 30 s request timer closes the transport
+  | okLost      -- pair-verify succeeds, but the accessory drops the connection while `connection_made` is still
+                -- running inside the connector (e.g. at the re-subscription request)
   deriving DecidableEq, Repr
 
 inductive Conn
@@ -109,6 +111,8 @@ structure St where
   tcp : List Tcp := []
   ver : List Ver := []
   waiters : List Waiter := []
+  resub : Bool := true           -- the next session re-subscribes inside `connection_made` (subscriptions exist and
+                                 -- the polling fallback `supports_subscribe = False` has not been entered)
   obs : List Obs := []
   deriving DecidableEq, Repr
 
@@ -174,6 +178,12 @@ def verifyVerdict (s : St) (v : Ver) : St × Bool :=
   | .hang =>
     match s.current with
     | some c => ({ s with conn := .verifyWait (s.now + consts.requestTimeout) c }, false)
+    | none => (backoff s, false)
+  | .okLost =>
+    -- without a request inside `connection_made` there is nothing for the accessory to drop: plain success
+    if !s.resub then (finish { s with secure := true } .doneOk, false)
+    else match s.current with
+    | some c => (backoff { s with secure := true, current := none, open_ := s.open_.filter (· ≠ c), resub := false }, false)
     | none => (backoff s, false)
   | .wrongId =>
     let s := wrongIdState s
